@@ -252,10 +252,22 @@ Proof.
     rewrite aug_dither_f64 by reflexivity; reflexivity.
 Qed.
 
+(* the statement  if np.issubdtype(signal_dtype, np.integer): np.rint(signal, out=signal) *)
+Lemma dither_rint : forall c ip ax d x w r wn b, (b = true -> d = F64) ->
+  exec O G c ip ax (nth 4 dither_prog SWarn) (st_work d x w r wn b) =
+  st_work d x (rint_if_int O d w) r wn b.
+Proof.
+  intros c ip ax d x w r wn b Hb. destruct b; [rewrite (Hb eq_refl); reflexivity|].
+  destruct d; reflexivity.
+Qed.
+
+Lemma rint_if_int_length : forall d l, length (rint_if_int O d l) = length l.
+Proof. intros. unfold rint_if_int. destruct (is_float d); [reflexivity|apply map_length]. Qed.
+
 Lemma dither_run_all : forall c ip ax d x r, axis_ok ax = true ->
   let s := run O G c ip ax dither_prog (Build_arr d x) r in
   let g := g_draw G r (length x) in
-  let y := via_f64 O d (fun w => dither_spec O c w g) x in
+  let y := via_f64 O d (fun w => rint_if_int O d (dither_spec O c w g)) x in
   s_err s = false /\ s_rng s = g_adv G r (length x) /\ s_warn s = negb (opt_eqb ax None) /\
   out_arr s = Some (Build_arr d y) /\
   (if ip && dtype_eqb d F64
@@ -263,9 +275,11 @@ Lemma dither_run_all : forall c ip ax d x r, axis_ok ax = true ->
    else aliases_input s = false /\ input_after s = Build_arr d x).
 Proof.
   intros c ip ax d x r Hax. unfold run, via_f64.
-  change dither_prog with (firstn 3 dither_prog ++ [nth 3 dither_prog SWarn] ++ skipn 4 dither_prog).
+  change dither_prog with (firstn 3 dither_prog ++ [nth 3 dither_prog SWarn] ++
+                           [nth 4 dither_prog SWarn] ++ skipn 5 dither_prog).
   rewrite !exec_list_app, dither_prologue by assumption.
   cbn [exec_list]. rewrite dither_body by (assumption || apply in_place_f64).
+  rewrite dither_rint by apply in_place_f64.
   rewrite conv_length.
   apply epilogue; [apply in_place_f64|left; reflexivity].
 Qed.
